@@ -19,7 +19,75 @@ import (
 	"vharness/fontgen"
 )
 
-func init() { register("faults", faultsCmd) }
+func init() {
+	register("faults", faultsCmd)
+	register("corrupt", corruptCmd)
+}
+
+// corruptCmd <tier> <seed>: structure-aware corruption of valid files (C01f): one byte of
+// every corpus input replaced at every offset; the reader must return (result or error).
+func corruptCmd(args []string) error {
+	tier := args[0]
+	var seed int64
+	fmt.Sscan(args[1], &seed)
+	sum := replaySummary{PerOp: map[string]int{}, PerOpOK: map[string]int{}, BySig: map[string]int{}}
+	var mu sync.Mutex
+	type job struct {
+		in  corpus.Input
+		at  int
+		val byte
+	}
+	jobs := make(chan job, 1024)
+	var wg sync.WaitGroup
+	for w := 0; w < runtime.NumCPU(); w++ {
+		wg.Add(1)
+		go func() {
+			defer wg.Done()
+			for j := range jobs {
+				data := append([]byte{}, j.in.Data...)
+				data[j.at] = j.val
+				res := corpus.Run(j.in.Entry, bytes.NewReader(data))
+				mu.Lock()
+				sum.Vectors++
+				sum.PerOp[j.in.Entry]++
+				if res.Panic == "" {
+					sum.Agreed++
+					if res.Err == "" {
+						sum.PerOpOK[j.in.Entry]++
+					}
+				} else {
+					sig := "corrupt: " + j.in.Entry + " panics on a corrupted file"
+					sum.NDisagree++
+					sum.BySig[sig]++
+					if sum.BySig[sig] <= 3 {
+						sum.Disagreements = append(sum.Disagreements, disagreement{Sig: sig, What: "the reader panicked: " + res.Panic,
+							Stimulus: fmt.Sprintf("input %s, byte %d replaced by 0x%02x", j.in.Name, j.at, j.val), Expected: "a result or an error", Observed: res.Panic})
+					}
+				}
+				mu.Unlock()
+			}
+		}()
+	}
+	vals := []byte{0x00, 0xff, '(', '}', '%', '<', '0', 0x80, ' '}
+	rng := rand.New(rand.NewSource(seed))
+	for _, in := range corpus.All(seed) {
+		step := 1
+		if tier == "quick" && len(in.Data) > 2000 {
+			step = 3
+		}
+		for at := 0; at < len(in.Data); at += step {
+			jobs <- job{in, at, vals[rng.Intn(len(vals))]}
+			if tier == "thorough" {
+				jobs <- job{in, at, vals[rng.Intn(len(vals))]}
+				jobs <- job{in, at, byte(rng.Intn(256))}
+			}
+		}
+	}
+	close(jobs)
+	wg.Wait()
+	sum.Distinct = sum.Vectors
+	return emit(sum)
+}
 
 var errInjected = errors.New("injected I/O fault")
 
